@@ -63,7 +63,8 @@ VALID_SEEDS = [
 ]
 
 INJECTIONS = {
-    "unknown-meta": ["f > #foo", "f(#foo) > x", "f(x, !#bar)", "g(#nope, f(!z))"],
+    "unknown-meta": ["f > #foo", "f(#foo) > x", "f(x, !#bar)", "g(#nope, f(!z))", "f > #valuex", "f(#enter2) > x",
+                     "f > #exit_", "f > #Value", "f(#errors) > x", "f > #yield1", "f > #receive_", "f > #val"],
     "non-tag-category": ["f > x:n", "f > x:1", "f > $v:n", "f(x:K) > z", "f:n > x"],
     "unresolvable-function": ["nope > x", "g > nope > x", "nope(x) > y", "g(nope(!x))"],
     "second-focus-without-first": ["f(!!x)", "f(x, !!z)", "g(f(!!z))", "g(!!x, f(z))"],
